@@ -89,6 +89,13 @@ pub struct Profile {
     /// global elements of a builtin type, referred to with element ref=
     #[serde(default)]
     pub elem_of_builtin: bool,
+    /// a sequence of elements as a branch of a choice (structure checks; the value engine knows
+    /// choice groups of single members only)
+    #[serde(default)]
+    pub seq_in_choice: bool,
+    /// import prefixes declared on the complexType nodes that use them instead of on the schema root
+    #[serde(default)]
+    pub nested_xmlns: bool,
 }
 
 fn yes() -> bool {
@@ -136,6 +143,8 @@ impl Profile {
             reserved_prefix_uris: true,
             wsdl_shapes: true,
             elem_of_builtin: true,
+            seq_in_choice: false,
+            nested_xmlns: true,
         }
     }
     /// switch a feature off by its tag name; returns false for an unknown tag
@@ -601,6 +610,16 @@ impl B<'_> {
                     .iter()
                     .filter_map(|q| match q {
                         RawParticle::Elem { .. } | RawParticle::Ref { .. } => self.particle(file, limit, q, used, salt, depth + 1, true),
+                        // a sequence as a branch: its members come and go together (structure checks only)
+                        RawParticle::Seq { parts, .. } if self.p.seq_in_choice && parts.iter().filter(|x| matches!(x, RawParticle::Elem { .. })).count() >= 2 => {
+                            let ps: Vec<Particle> = parts.iter().filter(|x| matches!(x, RawParticle::Elem { .. })).filter_map(|x| self.particle(file, limit, x, used, salt, depth + 1, true)).collect();
+                            if ps.len() >= 2 {
+                                self.stats.feat("particle.choice.sequence-branch");
+                                Some(Particle::Seq(Seq { min0: false, unbounded: false, parts: ps }))
+                            } else {
+                                ps.into_iter().next()
+                            }
+                        }
                         RawParticle::Seq { parts, .. } | RawParticle::Choice { branches: parts, .. } => parts.first().and_then(|x| match x {
                             RawParticle::Elem { .. } => self.particle(file, limit, x, used, salt, depth + 1, true),
                             _ => None,
@@ -817,6 +836,9 @@ pub fn build(raw: &RawModel, p: &Profile) -> (Model, BuildStats) {
             let base = if p.prefix_reuse { rf.imp_prefix as usize } else { i * 3 };
             import_prefixes.push(IMPORT_PREFIXES[(base + k) % IMPORT_PREFIXES.len()].to_string());
         }
+        if p.nested_xmlns && rf.imp_prefix % 3 == 0 && !imports.is_empty() {
+            b.stats.feat("ns.import-prefixes-declared-on-component-nodes");
+        }
         b.files.push(SFile {
             name: if i == 0 { "main.xsd".to_string() } else { format!("part{i}.xsd") },
             ns: if p.reserved_prefix_uris && raw.files[0].perm % 5 == 1 {
@@ -842,6 +864,7 @@ pub fn build(raw: &RawModel, p: &Profile) -> (Model, BuildStats) {
             own_prefix,
             import_prefixes,
             xs_prefix: if rf.xs { "xs".into() } else { "xsd".into() },
+            nested_decls: p.nested_xmlns && rf.imp_prefix % 3 == 0,
         });
     }
     // make sure files 1.. are reachable (chain i -> i+1 when nobody imports i+1)
